@@ -127,6 +127,32 @@ def verdict(rep, rule, instance, A, B, quats=(), where=None, what="", unknown_ok
     return v
 
 
+def verdict_by_branches(rep, rule, instance, A, B, quats=(), where=None, what="", unknown_ok=False, limit=3):
+    """verdict(), but when A carries if_else selections the comparison is made on every selection separately (a branch
+    that provably differs is a violation: the selection exists for some input unless its condition is unsatisfiable,
+    which the caller rules out by using this only for conditions on free inputs)."""
+    from .liecommon import branches
+    brs = branches(A, limit)
+    if not brs or len(brs) == 1:
+        return verdict(rep, rule, instance, A, B, quats, where, what, unknown_ok)
+    worst = EQUAL
+    detail = None
+    for label, Ab in brs:
+        v, d = decide_mat(Ab, B, quats)
+        if v == DIFFERENT:
+            rep.fail(rule, instance, "%s: on the selection [%s] value numbers differ, %s" % (what or "identity violated", label, d), where=where, fact={"branch": label, "difference": d})
+            return DIFFERENT
+        if v == UNKNOWN and worst == EQUAL:
+            worst, detail = UNKNOWN, "[%s] %s" % (label, d)
+    if worst == EQUAL:
+        rep.ok(rule, instance, fact={"branches": len(brs)})
+    elif unknown_ok:
+        rep.na(rule, instance, "not decidable by canonical forms: %s" % detail)
+    else:
+        rep.incomplete(rule, instance, "%s: cannot decide (different opaque building blocks), %s" % (what, detail), where=where)
+    return worst
+
+
 def eye(n):
     return CA.SX.eye(n)
 
